@@ -32,7 +32,7 @@ RULE = (
     "distinct_nontrivial = distinct (program, dataset seed, run kind, sample set / order, interference pattern) runs whose sample columns were compared with the solo columns"
 )
 FAULT_KEYS = ["fit_interference", "prior_work", "permuted_runs", "subset_runs", "solo_runs", "pool_runs", "merged_runs", "multi_core_runs", "sample_in_two_pools"]
-PROBE_KEYS = ["columns_compared", "records_compared_pool_vs_merged", "unknown_alleles_named_by_others", "alt_renumbered", "refmasked_solo_only",
+PROBE_KEYS = ["gl_values_compared", "pool_file_interleaved", "columns_compared", "records_compared_pool_vs_merged", "unknown_alleles_named_by_others", "alt_renumbered", "refmasked_solo_only",
               "programs_assemble", "programs_call", "programs_call_exact", "sample_in_two_pools", "fits_observed"]
 OPTIONAL_PROBES = {"quick": ("alt_renumbered", "refmasked_solo_only"), "thorough": ()}
 COMPONENTS = dict(scn_c08.COMPONENTS)
@@ -51,15 +51,18 @@ def prepare(tier):
     scn_c08.warm_compile(m)
 
 
+child_init = scn_c08.child_init
+
+
 def gen_config(rng, tier, index=0):
     return {
         "program": rng.choice(PROGRAMS),
         "dataset": "simple" if rng.random() < 0.25 else "synthetic",
         "data_seed": rng.randrange(2 ** 31),
-        "mcmc_seed": rng.choice([1, 11, 42]),
+        "mcmc_seed": rng.choice([0, 0, 1, 11, 42, 2 ** 31 - 1]),
         "chains": rng.choice([1, 1, 2]),
         "steps": rng.choice([40, 60, 100]),
-        "report": sorted(rng.sample(["AFP", "ACP", "AOP", "SNVDP"], rng.choice([0, 1, 2]))),
+        "report": sorted(rng.sample(["AFP", "ACP", "AOP", "SNVDP", "GL", "GL", "GP"], rng.choice([0, 1, 2, 3]))),
         "interference": rng.choice([None, "rng", "rng", "fit"]),
         "n_perm": rng.choice([1, 2]),
         "subset": rng.random() < 0.6,
@@ -102,8 +105,11 @@ class Batch(scn_c08.Batch):
         a += ["--bam", bam_list, "--ploidy", ploidy_file]
         if pool_file:
             a += ["--sample-pool", pool_file]
-        if cfg["report"]:
-            a += ["--report"] + cfg["report"]
+        rep = sorted(set(cfg["report"]))
+        if program == "assemble":
+            rep = [x for x in rep if x != "GP"]  # observation O2 (see scn_c08.base_args)
+        if rep:
+            a += ["--report"] + rep
         a += self.mcmc_args(program) + ["--cores", str(cores)]
         return a
 
@@ -135,6 +141,19 @@ def per_seq(rec, col, key):
     if len(vals) != len(rec["seqs"]):
         return None
     return {rec["seqs"][i]: vals[i] for i in range(len(vals))}
+
+
+def per_genotype(rec, col, key, ploidy):
+    """G-length field keyed by the multiset of haplotype sequences of each genotype (VCF order)."""
+    import itertools
+    if key not in col or col[key] in (".", ""):
+        return None
+    vals = col[key].split(",")
+    n = len(rec["seqs"])
+    gens = sorted(itertools.combinations_with_replacement(range(n), ploidy), key=lambda g: tuple(reversed(g)))
+    if len(vals) != len(gens):
+        return None
+    return {tuple(sorted(rec["seqs"][a] for a in g)): v for g, v in zip(gens, vals)}
 
 
 def execute(ctx):
@@ -269,10 +288,21 @@ def run_batch(ctx, b):
             pool_ploidy = {p: max(ploidy[s] for s in mem) if ctx.tape.chance(0.5) else min(6, sum(ploidy[s] for s in mem)) for p, mem in pools.items()}
             pf_pool = b.ploidy_file(pool_ploidy)
             pool_file = b.path(".pools")
+            lines = [(s, p) for p, mem in pools.items() for s in mem]
+            if ctx.tape.chance(0.6):
+                # the lines of one pool need not be adjacent in the file
+                for i in range(len(lines) - 1, 0, -1):
+                    j = ctx.tape.int(0, i)
+                    lines[i], lines[j] = lines[j], lines[i]
+                ctx.counters.inc("pool_file_interleaved")
             with open(pool_file, "w") as f:
-                for p, mem in pools.items():
-                    for s in mem:
-                        f.write("%s\t%s\n" % (s, p))
+                for s, p in lines:
+                    f.write("%s\t%s\n" % (s, p))
+            # pool membership order (= order of first appearance) as the program will see it
+            seen_order = {}
+            for s, p in lines:
+                seen_order.setdefault(p, []).append(s)
+            pool_names = list(seen_order)
             if any(sum(1 for mem in pools.values() if s in mem) > 1 for s in samples):
                 ctx.counters.inc("sample_in_two_pools")
             prec, r = run(samples, pf=pf_pool, pool_file=pool_file, names=pool_names)
@@ -398,6 +428,16 @@ def compare_runs(ctx, program, kind, ref_recs, other, samples, full=False, cls=N
                     ctx.counters.inc("unknown_alleles_named_by_others")
                 if orec["refmasked"] and not rrec["refmasked"]:
                     ctx.counters.inc("refmasked_solo_only")
+            ploidy_s = len(ga)
+            for k in ("GL",):
+                ma, mo = per_genotype(rrec, a, k, ploidy_s), per_genotype(orec, o, k, ploidy_s)
+                if ma is None or mo is None:
+                    continue
+                for gk in set(ma) & set(mo):
+                    if ma[gk] != mo[gk]:
+                        raise Violation(cls, "%s: %s of %s at %s for genotype %r is %s in one run and %s in the other" % (kind, k, s, lid, list(gk), ma[gk], mo[gk]), step=ctx.step,
+                                        detail={"kind": kind, "sample": s, "locus": lid, "field": k})
+                    ctx.counters.inc("gl_values_compared")
             for k in ("AFP", "ACP", "AOP"):
                 pa, po = per_seq(rrec, a, k), per_seq(orec, o, k)
                 if pa is None or po is None:
